@@ -206,6 +206,10 @@ def delivered_count(arr):
             return ("choice", idx.kwd("size"), base, idx.kwd("replace"))
         if isinstance(idx, _A) and idx.fn == "repeat":
             return ("repeat", idx.args[1], base, None)
+        if isinstance(idx, _A) and idx.fn == "isin" and len(idx.args) >= 2 and strip_views(idx.args[0]) == base:
+            inner = delivered_count(idx.args[1])
+            if inner is not None and inner[0] == "choice":
+                return ("membership", inner[1], inner[2], inner[3])
     return None
 
 
@@ -274,6 +278,11 @@ def sample_wellformed(ctx, chk):
                 chk.unknown("R11.1", "%s: sampled %s array not understood: %s" % (label, nm, show(res.attrs.get(nm), 160)))
                 continue
             kind, cnt, base, repl = d
+            if kind == "membership":
+                chk.violation("R11.3", BS, "%s:%s-selected-by-value" % (inst, nm), "the drawn scores are turned into a membership mask over the source (%s)" % show(res.attrs.get(nm), 140),
+                              "the drawn elements themselves: a value-membership mask selects EVERY tied copy of a drawn score, so with repeated score values the sample is larger than the %s draws made" % show(cnt, 80),
+                              ctx.where(BS))
+                continue
             base_ok = base == src or (kind == "choice" and is_len_of(base, src))
             if base_ok:
                 chk.hold("R11.1", "%s:%s-source" % (inst, nm), "%s drawn from the source's %s scores" % (nm, nm))
